@@ -3,8 +3,11 @@ package harness
 // Model "vowner" (C09): a scope has one value owner, changed only with the current owner's
 // consent.  Drives the REAL metadata MsgServer (WriteScope, DeleteScope, UpdateValueOwners,
 // MigrateValueOwner) and the REAL bank MsgServer (MsgSend of scope tokens) of a full app with
-// real bank, authz, marker and account keepers.  After every operation it dumps, per scope:
-// existence and owners (metadata store), the value owner per GetScopeValueOwner, and the
+// real bank, authz, marker and account keepers.  Scopes are written both as plain scopes and
+// with require_party_rollup, with required and optional parties ("B?" in op lines), and the
+// value owner is often one of the scope's own parties (optional ones included).  After every
+// operation it dumps, per scope: existence, parties (with optional marks) and the roll-up flag
+// (metadata store), the value owner per GetScopeValueOwner, and the
 // bank's holders and supply of the scope denom; plus the authz grants and marker permissions
 // in force.  The Lean driver compares the dumps with the model and runs the property's step
 // checker on consecutive implementation dumps.
@@ -138,6 +141,14 @@ func (e *vownerEnv) sym(bech string) string {
 	return "?"
 }
 
+// symParty renders a party: its symbolic address, with a trailing "?" when it is optional.
+func (e *vownerEnv) symParty(p mdtypes.Party) string {
+	if p.Optional {
+		return e.sym(p.Address) + "?"
+	}
+	return e.sym(p.Address)
+}
+
 func (e *vownerEnv) bech(n string) string {
 	if n == "-" || n == "" {
 		return ""
@@ -177,8 +188,10 @@ func vownerClass(err error) string {
 		return "err:provrole"
 	case has("smart contract signer"):
 		return "err:contract"
-	case has("missing signature"):
+	case has("missing signature"), has("missing required signature"):
 		return "err:sig"
+	case has("missing signers for roles required by spec"):
+		return "err:roles"
 	case has("is not allowed to receive funds"):
 		return "err:blocked"
 	case has("ACCESS_WITHDRAW"), has("cannot withdraw from marker account"):
@@ -258,9 +271,13 @@ func (e *vownerEnv) dump() string {
 		owners := []string{}
 		if found {
 			for _, p := range sc.Owners {
-				owners = append(owners, e.sym(p.Address))
+				owners = append(owners, e.symParty(p))
 			}
 			sort.Strings(owners)
+		}
+		roll := "0"
+		if found && sc.RequirePartyRollup {
+			roll = "1"
 		}
 		vo := "-"
 		if ad, err := e.app.MetadataKeeper.GetScopeValueOwner(e.ctx, id); err != nil {
@@ -309,7 +326,7 @@ func (e *vownerEnv) dump() string {
 			}
 		}
 		sort.Strings(listed)
-		parts = append(parts, fmt.Sprintf("%s=%s;%s;%s;%s;%s;%s;%s", n, ex, JoinOr(owners, "|"), vo, JoinOr(hs, "|"), supply.String(), qvo, JoinOr(listed, "|")))
+		parts = append(parts, fmt.Sprintf("%s=%s;%s;%s;%s;%s;%s;%s;%s", n, ex, JoinOr(owners, "|"), vo, JoinOr(hs, "|"), supply.String(), qvo, JoinOr(listed, "|"), roll))
 	}
 	var gs []string
 	urlMT := map[string]string{}
@@ -385,9 +402,11 @@ func (e *vownerEnv) exec(op string) string {
 		if !ok {
 			return "bad-op"
 		}
-		sc := mdtypes.Scope{ScopeId: id, SpecificationId: e.spec, ValueOwnerAddress: e.bech(kvArg2(ws, "vo"))}
-		for _, o := range vownerSplit(kvArg2(ws, "owners")) {
-			sc.Owners = append(sc.Owners, mdtypes.Party{Address: e.bech(o), Role: mdtypes.PartyType_PARTY_TYPE_OWNER})
+		sc := mdtypes.Scope{ScopeId: id, SpecificationId: e.spec, ValueOwnerAddress: e.bech(kvArg2(ws, "vo")),
+			RequirePartyRollup: kvArg2(ws, "roll") == "1"}
+		for _, o := range vownerSplit(kvArg2(ws, "owners")) { // "B?" = optional party B
+			opt := strings.HasSuffix(o, "?")
+			sc.Owners = append(sc.Owners, mdtypes.Party{Address: e.bech(strings.TrimSuffix(o, "?")), Role: mdtypes.PartyType_PARTY_TYPE_OWNER, Optional: opt})
 		}
 		signers := e.bechs(kvArg2(ws, "signers"))
 		msg := &mdtypes.MsgWriteScopeRequest{Scope: sc, Signers: signers}
@@ -541,17 +560,60 @@ func replayVowner(t *testing.T, ops []string, out *Out) {
 
 type vownerView struct {
 	exists map[string]bool
-	owners map[string][]string
+	owners map[string][]string // parties as written in op lines: "A" required, "A?" optional
+	rollup map[string]bool
 	holder map[string]string // "" when none
 }
 
+// vownerAddrs strips the optional marks: the parties' addresses.
+func vownerAddrs(parties []string) []string {
+	var res []string
+	for _, p := range parties {
+		res = append(res, strings.TrimSuffix(p, "?"))
+	}
+	return res
+}
+
+// partiesNeed lists whose agreement the party validation of scope id asks for: every owner of a
+// plain scope; of a roll-up scope the required parties, and when there is none one optional
+// party (for the role); now and then a further optional party signs along.
+func (v vownerView) partiesNeed(rng *RNG, id string) []string {
+	if !v.rollup[id] {
+		return vownerAddrs(v.owners[id])
+	}
+	var need, opts []string
+	for _, p := range v.owners[id] {
+		if strings.HasSuffix(p, "?") {
+			opts = append(opts, strings.TrimSuffix(p, "?"))
+		} else {
+			need = append(need, p)
+		}
+	}
+	if len(opts) > 0 && (len(need) == 0 || rng.Chance(20)) {
+		need = append(need, Pick(rng, opts))
+	}
+	return need
+}
+
+// optionalParties lists the addresses of id's optional parties.
+func (v vownerView) optionalParties(id string) []string {
+	var res []string
+	for _, p := range v.owners[id] {
+		if strings.HasSuffix(p, "?") {
+			res = append(res, strings.TrimSuffix(p, "?"))
+		}
+	}
+	return res
+}
+
 func (e *vownerEnv) view() vownerView {
-	v := vownerView{exists: map[string]bool{}, owners: map[string][]string{}, holder: map[string]string{}}
+	v := vownerView{exists: map[string]bool{}, owners: map[string][]string{}, rollup: map[string]bool{}, holder: map[string]string{}}
 	for _, n := range vownerIDs {
 		sc, found := e.app.MetadataKeeper.GetScope(e.ctx, e.scope[n])
 		v.exists[n] = found
+		v.rollup[n] = found && sc.RequirePartyRollup
 		for _, p := range sc.Owners {
-			v.owners[n] = append(v.owners[n], e.sym(p.Address))
+			v.owners[n] = append(v.owners[n], e.symParty(p))
 		}
 		if ad, err := e.app.MetadataKeeper.GetScopeValueOwner(e.ctx, e.scope[n]); err == nil && len(ad) > 0 {
 			v.holder[n] = e.sym(ad.String())
@@ -862,12 +924,42 @@ func driveVowner(t *testing.T, rng *RNG, n int, out *Out) {
 				if len(existing) > 0 && rng.Chance(60) {
 					id = Pick(rng, existing)
 				}
+				// require_party_rollup: mostly kept on an existing scope; a new scope has it about half the time
+				roll := rng.Chance(45)
+				if v.exists[id] {
+					roll = v.rollup[id]
+					if rng.Chance(10) {
+						roll = !roll
+					}
+				}
+				holderIsOptParty := v.exists[id] && v.holder[id] != "" && contains(v.optionalParties(id), v.holder[id])
+				// the shape "value owner AND something else change" is forced now and then, above all
+				// when the value owner is an optional party of a roll-up scope
+				forceBoth := v.exists[id] && v.holder[id] != "" && ((holderIsOptParty && rng.Chance(45)) || rng.Chance(6))
 				var owners []string
-				if v.exists[id] && rng.Chance(60) {
+				if v.exists[id] && rng.Chance(60) && !forceBoth {
 					owners = append(owners, v.owners[id]...)
+					if roll && rng.Chance(15) && len(owners) > 0 { // only a party's optional flag changes
+						i := rng.Intn(len(owners))
+						if strings.HasSuffix(owners[i], "?") {
+							owners[i] = strings.TrimSuffix(owners[i], "?")
+						} else {
+							owners[i] += "?"
+						}
+					}
+					if !roll && v.rollup[id] && !rng.Chance(10) { // leaving roll-up: no optional party may stay
+						owners = vownerAddrs(owners)
+					}
 				} else {
+					optPct := 3 // optional parties need roll-up: a few invalid ones
+					if roll {
+						optPct = 45
+					}
 					for _, a := range vownerAccts {
-						if rng.Chance(35) {
+						if rng.Chance(35) || (forceBoth && contains(vownerAddrs(v.owners[id]), a) && rng.Chance(60)) {
+							if rng.Chance(optPct) {
+								a += "?"
+							}
 							owners = append(owners, a)
 						}
 					}
@@ -878,44 +970,85 @@ func driveVowner(t *testing.T, rng *RNG, n int, out *Out) {
 						owners = append(owners, "K")
 					}
 					if rng.Chance(2) && len(owners) > 0 {
-						owners = append(owners, owners[0])
+						owners = append(owners, Pick(rng, []string{owners[0], strings.TrimSuffix(owners[0], "?") + "?"}))
 					}
 				}
 				vo := "-"
-				if (!v.exists[id] && rng.Chance(80)) || (v.exists[id] && rng.Chance(55)) {
+				if (!v.exists[id] && rng.Chance(80)) || (v.exists[id] && rng.Chance(55)) || forceBoth {
 					vo = vownerPickTarget(rng, v.holder[id])
+					// the value owner is often one of the scope's own parties, optional ones included
+					if pool := owners; len(pool) > 0 && rng.Chance(35) && !forceBoth {
+						var opts []string
+						for _, p := range pool {
+							if strings.HasSuffix(p, "?") {
+								opts = append(opts, p)
+							}
+						}
+						if len(opts) > 0 && rng.Chance(70) {
+							pool = opts
+						}
+						vo = strings.TrimSuffix(Pick(rng, pool), "?")
+					}
+					if forceBoth && vo == v.holder[id] {
+						vo = Pick(rng, vownerAccts)
+					}
 				}
 				var need []string
-				ownersChange := v.exists[id] && !sameSet(owners, v.owners[id])
+				ownersChange := v.exists[id] && (!sameSet(owners, v.owners[id]) || roll != v.rollup[id])
 				voChange := vo != "-" && vo != v.holder[id]
-				if v.exists[id] && (ownersChange || (voChange && v.holder[id] == "")) {
-					need = append(need, v.owners[id]...)
+				onlyVO := v.exists[id] && v.holder[id] != "" && voChange && !ownersChange
+				if v.exists[id] && !onlyVO && (v.rollup[id] || ownersChange || (voChange && v.holder[id] == "")) {
+					need = append(need, v.partiesNeed(rng, id)...)
 				}
 				if voChange && v.holder[id] != "" {
-					need = append(need, v.holder[id])
+					// the parties agree but the value owner is not asked: must be refused unless the
+					// value owner happens to be among the parties that sign
+					if !onlyVO && rng.Chance(15) {
+						out.Count("write:value-owner-not-asked")
+					} else {
+						need = append(need, v.holder[id])
+					}
 				}
 				if !v.exists[id] && rng.Chance(50) {
-					need = append(need, owners...)
+					need = append(need, vownerAddrs(owners)...)
 				}
 				tgt := ""
 				if voChange {
 					tgt = vo
 				}
 				signers = e.signersFor(rng, out, pre, "write", vownerUniq(need), tgt)
-				r = emit(fmt.Sprintf("write id=%s owners=%s vo=%s signers=%s", id, JoinOr(owners, "|"), vo, signers))
+				rollArg := ""
+				if roll || rng.Chance(30) {
+					rollArg = fmt.Sprintf(" roll=%d", map[bool]int{false: 0, true: 1}[roll])
+				}
+				r = emit(fmt.Sprintf("write id=%s owners=%s%s vo=%s signers=%s", id, JoinOr(owners, "|"), rollArg, vo, signers))
+				shape := ""
 				switch {
 				case !v.exists[id] && vo != "-":
-					out.Count("write:new+vo")
+					shape = "new+vo"
 				case !v.exists[id]:
-					out.Count("write:new")
+					shape = "new"
 				case voChange && ownersChange:
-					out.Count("write:vo+other")
+					shape = "vo+other"
 				case voChange:
-					out.Count("write:vo-only")
+					shape = "vo-only"
 				case ownersChange:
-					out.Count("write:other-only")
+					shape = "other-only"
 				default:
-					out.Count("write:no-change")
+					shape = "no-change"
+				}
+				out.Count("write:" + shape)
+				if roll {
+					out.Count("write:rollup")
+				}
+				if v.exists[id] && v.rollup[id] {
+					out.Count("write:on-rollup:" + shape + ":" + resClassV(r))
+					if holderIsOptParty {
+						out.Count("write:on-rollup:vo-is-optional-party:" + shape + ":" + resClassV(r))
+					}
+				}
+				if v.exists[id] && v.holder[id] != "" && contains(vownerAddrs(v.owners[id]), v.holder[id]) {
+					out.Count("write:vo-is-party")
 				}
 			case k < 46: // update value owners
 				kind = "updvo"
@@ -969,11 +1102,18 @@ func driveVowner(t *testing.T, rng *RNG, n int, out *Out) {
 				if len(existing) > 0 && rng.Chance(88) {
 					id = Pick(rng, existing)
 				}
-				need := append([]string{}, v.owners[id]...)
+				need := append([]string{}, v.partiesNeed(rng, id)...)
 				if v.holder[id] != "" {
-					need = append(need, v.holder[id])
+					if len(need) > 0 && rng.Chance(8) {
+						out.Count("delete:value-owner-not-asked")
+					} else {
+						need = append(need, v.holder[id])
+					}
 				}
 				signers = e.signersFor(rng, out, pre, "delete", vownerUniq(need), "")
+				if v.rollup[id] {
+					out.Count("delete:on-rollup")
+				}
 				r = emit(fmt.Sprintf("delete id=%s signers=%s", id, signers))
 			case k >= 71 && k < 75: // marker MsgWithdraw of scope tokens a marker holds
 				kind = "mwithdraw"
@@ -1040,7 +1180,7 @@ func driveVowner(t *testing.T, rng *RNG, n int, out *Out) {
 				grantee := Pick(rng, people)
 				var cands []string
 				for _, id := range existing {
-					cands = append(cands, v.owners[id]...)
+					cands = append(cands, vownerAddrs(v.owners[id])...)
 					if hh := v.holder[id]; hh != "" && !contains(vownerMarkers, hh) && hh != "MOD" && hh != "FEE" {
 						cands = append(cands, hh, hh)
 					}
